@@ -156,6 +156,12 @@ def c01_family(tier, n):
                                                           src(n, 's2', period=p2, required='snk', topics=['main', 'aux']),
                                                           sink('snk', [s1, s2])]))
 
+    # join of two independent chains, one with a skipping relay, the other slow (a timed-out recv must not forget an adopted id)
+    for beh in ['skip1', 'skip02']:
+        for p2 in [0, 60, 150]:
+            out.append(scn(f'join2chain/{beh}/p{p2}', [src(n, 's1', required='r'), relay('r', ['s1'], beh, required='snk'),
+                                                         src(n, 's2', period=p2, required='snk'), sink('snk', ['r', 's2;main>other'])]))
+
     # rejoin with an ephemeral side consumer on the splitter
     for side in ['?', '??']:
         for b1 in ['pass', 'skip1']:
